@@ -196,7 +196,7 @@ def _run_path(m: Machine, ctx: Ctx, module, cls, fnode, contract, key, res, case
             ctx.oblige("%s:inv.%d" % (key, j), "invariant", m.spec_bool(cl, env), note=cl, model_vars=model_vars)
         for exc, cond in contract.raises.items():
             if cond is not None:
-                ctx.oblige("%s:raises.%s.only-if" % (key, exc), "raises-iff", z3.Not(m.spec_bool(cond, env.old)), note="returns normally => not(%s)" % cond, model_vars=model_vars)
+                ctx.oblige("%s:raises.%s.only-if" % (key, exc), "raises-iff", z3.Not(_pre_bool(m, cond, env)), note="returns normally => not(%s)" % cond, model_vars=model_vars)
     else:
         e = outcome[1]
         res.outcomes[e.exc_type] = res.outcomes.get(e.exc_type, 0) + 1
@@ -221,7 +221,7 @@ def _run_path(m: Machine, ctx: Ctx, module, cls, fnode, contract, key, res, case
         else:
             cond = contract.raises[declared]
             if cond is not None:
-                ctx.oblige("%s:raises.%s.if@%s" % (key, declared, e.site - fnode.lineno if e.site else "?"), "raises-iff", m.spec_bool(cond, env.old), note="raised => %s" % cond, model_vars=model_vars)
+                ctx.oblige("%s:raises.%s.if@%s" % (key, declared, e.site - fnode.lineno if e.site else "?"), "raises-iff", _pre_bool(m, cond, env), note="raised => %s" % cond, model_vars=model_vars)
             for k, v in e.kwargs_v.items():
                 if isinstance(v, V):
                     env.locals["exc_" + k] = v
@@ -233,6 +233,16 @@ def _run_path(m: Machine, ctx: Ctx, module, cls, fnode, contract, key, res, case
             if not is_init:
                 for j, cl in enumerate(invs):
                     ctx.oblige("%s:inv-on-raise.%s.%d" % (key, declared, j), "invariant", m.spec_bool(cl, env), note=cl, model_vars=model_vars)
+
+
+def _pre_bool(m, cond, env):
+    """evaluate a clause in the ENTRY state (entry heap and entry parameter values)"""
+    saved = m.heap
+    m.heap = env.old_heap
+    try:
+        return m.spec_bool(cond, env.old)
+    finally:
+        m.heap = saved
 
 
 def index_is_sub(index, a, b):
